@@ -2,7 +2,7 @@
     Only statements live here; each is closed by [exact] of a lemma proved elsewhere. *)
 From Coq Require Import List ZArith Sorted.
 From Coq Require String.
-From V Require Import Gen.Params PktProt.PktNum PktProt.PktNumProofs PktProt.KeyPhase PktProt.KeyPhaseProofs PktProt.KeyDerive PktProt.KeyDeriveProofs PktProt.KeyPhaseRun PktProt.KeyPhaseWindow PktProt.KeyPhaseSys PktProt.KeyPhaseSysProofs PktProt.KeyPhaseExamples PktProt.Sha256 PktProt.InitialKeys PktProt.InitialKeysProofs PktProt.Aes PktProt.InitialProtect PktProt.InitialProtectExamples PktProt.Retry PktProt.RetryProofs PktProt.AesProofs Lib.Hex PktProt.Protect PktProt.ProtectProofs PktProt.ProtectExamples.
+From V Require Import Gen.Params PktProt.PktNum PktProt.PktNumProofs PktProt.KeyPhase PktProt.KeyPhaseProofs PktProt.KeyDerive PktProt.KeyDeriveProofs PktProt.KeyPhaseRun PktProt.KeyPhaseWindow PktProt.KeyPhaseSys PktProt.KeyPhaseSysProofs PktProt.KeyPhaseExamples PktProt.Sha256 PktProt.InitialKeys PktProt.InitialKeysProofs PktProt.Aes PktProt.InitialProtect PktProt.InitialProtectExamples PktProt.Retry PktProt.RetryProofs PktProt.AesProofs Lib.Hex PktProt.Protect PktProt.ProtectProofs PktProt.ProtectExamples PktProt.ProtectPack PktProt.ProtectPackProofs.
 Import ListNotations.
 Open Scope Z_scope.
 
@@ -142,6 +142,37 @@ Theorem C05_first_byte_layout :
   (forall ptype pnLen, (1 <= pnLen <= 4)%nat -> 0 <= ptype <= 3 -> wf_first true (long_first ptype pnLen) pnLen 0).
 Proof. exact (conj short_first_wf long_first_wf). Qed.
 Print Assumptions C05_first_byte_layout.
+
+(** (a)+(g) Packer -> unpacker.  The packet the packer builds — packet number length chosen by
+    PacketNumberLengthForHeader from the sender's largest acknowledged number (as
+    sentPacketHandler.PeekPacketNumber does), payload = ACK | padding | frames with the padding
+    appendShortHeaderPacket / appendLongHeaderPacket add so that packet number + payload are at
+    least 4 bytes (any extra padding on top), first byte as AppendShortHeader / ExtendedHeader.Append
+    write it, encryptPacket — is opened by the unpacker to exactly the packet number, its length,
+    the key phase bit and that payload: for both header forms, every packet number below 2^62,
+    every receiver state between the largest acknowledged and the packet itself (fewer than
+    2^31 outstanding), every non-empty ACK/frame content however short.  The chosen length is
+    2..4 and packet number + padded payload always reach the 4 bytes the sample needs. *)
+Theorem C05_pack_unpack :
+  forall (aead_seal : Z -> Z -> list Z -> list Z -> list Z)
+         (aead_open : Z -> Z -> list Z -> list Z -> option (list Z))
+         (hp_mask : list Z -> list Z),
+    (forall pn kp ad p, aead_open pn kp ad (aead_seal pn kp ad p) = Some p) ->
+    (forall pn kp ad p, length (aead_seal pn kp ad p) = (length p + 16)%nat) ->
+    forall (long : bool) (tcode kp : Z) (mid : list Z) (pn la largest : Z) (ack frames : list Z) (extra : nat),
+      (if long then 0 <= tcode <= 3 else kp = 0 \/ kp = 1) ->
+      0 <= pn < 2 ^ 62 -> -1 <= la -> la <= largest <= pn -> pn - la <= 2 ^ 31 ->
+      ack ++ frames <> [] ->
+      let pnLen := lenForHeader pn la in
+      let padding := pad_len (Z.to_nat pnLen) (length ack + length frames) extra in
+      2 <= pnLen <= 4 /\
+      (4 <= Z.to_nat pnLen + length (packet_payload ack padding frames))%nat /\
+      unprotect aead_open hp_mask long (1 + length mid) largest
+        (pack aead_seal hp_mask long tcode kp mid pn la ack frames extra)
+      = UOk (pack_first long tcode kp (Z.to_nat pnLen)) pn pnLen (if long then 0 else kp)
+            (packet_payload ack padding frames).
+Proof. exact pack_unpack. Qed.
+Print Assumptions C05_pack_unpack.
 
 (** (d) Any modification is rejected rather than yielding different plaintext: under ideal
     integrity of the AEAD (whatever opens was sealed by the honest sender — predicate
